@@ -349,6 +349,7 @@ func genBackup(c *Ctx) error {
 		nHist = 160
 	}
 	directedBackupLoop(c)
+	directedBackupLoopRestore(c)
 	directedReplicaRetention(c)
 	directedSecondDatabase(c)
 	for h := 0; h < nHist; h++ {
@@ -674,5 +675,86 @@ func directedSecondDatabase(c *Ctx) {
 			c.Count("directed.second-database")
 			c.Nontrivial("second-database-" + hx + mode)
 		}
+	}
+}
+
+// directedBackupLoopRestore: the continuous sync loop (cached service positions) meets a service
+// that another writer extended: the pass that finds out restores the primary from the service;
+// the commits that follow must be uploaded as ordinary extensions — the service reaches the
+// primary's position and the primary keeps what it committed.  Both backup clients.
+func directedBackupLoopRestore(c *Ctx) {
+	r := c.Rng
+	for _, mode := range []string{"", " lfsc"} {
+		cs := c.Begin()
+		do := func(op string) string { c.Count("op." + strings.SplitN(op, " ", 2)[0]); return cs.Do(op) }
+		p := newPager(r, 512, do)
+		p.journalMode = "DELETE"
+		do("open primary" + mode)
+		do("createdb")
+		observe := func() {
+			cs.Do(p.refLine())
+			do("state")
+			do("ltx")
+			do("raw")
+			do("svc")
+			do("hwm")
+		}
+		pagerStep(c, p, 3)
+		pagerStep(c, p, 3)
+		do("backup-sync")
+		observe()
+		do("reopen-loop")
+		p.restarted()
+		do("backup-wait")
+		observe()
+		// another writer continues the service's chain from the primary's position
+		other := newVPrimary(r, 512)
+		other.img, other.tok = append([][]byte{}, p.img...), append([]string{}, p.tok...)
+		var t, ck uint64
+		fmt.Sscanf(posOf(do("state")), "%d:%x", &t, &ck)
+		other.txid, other.chk = t, ck
+		do("svc-put " + other.randomCommit(3))
+		do("svc")
+		// the primary commits the same TXID on its own: the loop's next pass finds the service on
+		// another history and restores the primary from it
+		for {
+			if ok, _ := pagerStep(c, p, 2); ok {
+				break
+			}
+		}
+		do("backup-wait")
+		st := do("state")
+		want := fmt.Sprintf("%d:%016x", other.txid, other.chk)
+		if posOf(st) != want {
+			c.Fail(fmt.Sprintf("backup loop restore (%s): after the pass the primary is at %s, the service's position is %s", strings.TrimSpace(mode+" client"), posOf(st), want))
+			cs.End()
+			continue
+		}
+		p.img, p.tok = append([][]byte{}, other.img...), append([]string{}, other.tok...)
+		p.restarted()
+		observe()
+		for j := 0; j < 3; j++ {
+			for {
+				if ok, _ := pagerStep(c, p, 2); ok {
+					break
+				}
+			}
+			committed := posOf(do("state"))
+			do("backup-wait")
+			after := do("state")
+			sv := do("svc")
+			if posOf(after) != committed {
+				c.Fail(fmt.Sprintf("backup loop restore (%s), commit %d after the restore: the primary went from %s to %s during the loop's pass (a committed transaction was rolled back)", strings.TrimSpace(mode+" client"), j+1, committed, posOf(after)))
+				break
+			}
+			if !strings.Contains(sv, "pos="+committed) {
+				c.Fail(fmt.Sprintf("backup loop restore (%s), commit %d after the restore: the service did not reach the primary's position %s: %s", strings.TrimSpace(mode+" client"), j+1, committed, firstWords(sv, 3)))
+				break
+			}
+			observe()
+		}
+		cs.End()
+		c.Count("directed.backup-loop-restore")
+		c.Nontrivial("backup-loop-restore" + mode)
 	}
 }
